@@ -250,55 +250,62 @@ func TestVerifC10Persist(t *testing.T) {
 		}
 	}
 
-	// enumerate histories in length-lexicographic order
+	// enumerate histories by increasing length (so the first counterexample of a class is a shortest one), within a
+	// length in lexicographic order of the alphabet
 	idx := int64(0)
-	var rec func(hist []c10Op) bool
-	rec = func(hist []c10Op) bool {
-		if len(hist) > 0 {
-			idx++
-			if int(idx%int64(nshards)) == shard {
-				if time.Now().After(deadline) {
-					r.Cap("deadline reached after %d histories of this shard", nhist)
-					return false
+	visit := func(hist []c10Op) bool {
+		idx++
+		if int(idx%int64(nshards)) != shard {
+			return true
+		}
+		if time.Now().After(deadline) {
+			r.Cap("deadline reached after %d histories of this shard", nhist)
+			return false
+		}
+		nhist++
+		// fault-free dry run: counts the writes and is itself checked (live audits + clean reopen)
+		dry := c10Execute(u, au, hist, 0, crashds.FaultNone, count)
+		report(hist, 0, crashds.FaultNone, dry)
+		if dry.syncs > 0 {
+			count("gater-called-Sync")
+		}
+		// writes issued before the last op (stops inside earlier ops are executed with the prefix history)
+		prefixWrites := 0
+		if len(hist) > 1 && len(dry.cum) == len(hist) {
+			prefixWrites = dry.cum[len(hist)-2]
+		}
+		for k := 1; k <= dry.writes; k++ {
+			for _, f := range faults {
+				if f != crashds.FaultError && k <= prefixWrites {
+					nskip++
+					continue
 				}
-				nhist++
-				// fault-free dry run: counts the writes and is itself checked (live audits + clean reopen)
-				dry := c10Execute(u, au, hist, 0, crashds.FaultNone, count)
-				report(hist, 0, crashds.FaultNone, dry)
-				if dry.syncs > 0 {
-					count("gater-called-Sync")
-				}
-				// writes issued by the last op (stops inside earlier ops are executed with the prefix history)
-				prefixWrites := 0
-				if len(hist) > 1 && len(dry.cum) == len(hist) {
-					prefixWrites = dry.cum[len(hist)-2]
-				}
-				for k := 1; k <= dry.writes; k++ {
-					for _, f := range faults {
-						if f != crashds.FaultError && k <= prefixWrites {
-							nskip++
-							continue
-						}
-						res := c10Execute(u, au, hist, k, f, count)
-						report(hist, k, f, res)
-					}
-				}
+				res := c10Execute(u, au, hist, k, f, count)
+				report(hist, k, f, res)
 			}
 		}
-		if len(hist) == depth {
-			return true
+		return true
+	}
+	var rec func(hist []c10Op, length int) bool
+	rec = func(hist []c10Op, length int) bool {
+		if len(hist) == length {
+			return visit(hist)
 		}
 		for _, op := range alpha {
 			if op.Restart && (len(hist) == 0 || hist[len(hist)-1].Restart) {
 				continue // Restart first or twice in a row adds nothing
 			}
-			if !rec(append(hist, op)) {
+			if !rec(append(hist[:len(hist):len(hist)], op), length) {
 				return false
 			}
 		}
 		return true
 	}
-	rec(nil)
+	for length := 1; length <= depth; length++ {
+		if !rec(nil, length) {
+			break
+		}
+	}
 	r.Distinct = int64(len(distinct))
 	r.States = int64(len(distinct))
 	r.Transitions = r.Executions
